@@ -11,6 +11,10 @@ from vflib import core, mfrontlib
 from vflib.core import Broken, finish, validate_trace
 
 
+# some behaviours of the repository refer to material properties defined in other files of the test tree
+SEARCH = ["--search-path=" + os.path.join(core.REPO, "mfront/tests/properties"),
+          "--search-path=" + os.path.join(core.REPO, "mfront/tests/behaviours")]
+
 def digest_tree(d):
     out = {}
     for root, _, files in os.walk(d):
@@ -40,9 +44,28 @@ def run(ctx):
         # a sample of the repository's behaviours (copied: inputs must not be read from a path that changes)
         rnd = random.Random(ctx.seed)
         corpus = sorted(glob.glob(os.path.join(core.REPO, "mfront/tests/behaviours/*.mfront")))
-        for f in rnd.sample(corpus, 12):
+        import subprocess as sp
+        exe0 = os.path.join(core.BUILD, "mfront/src/mfront")
+        env0 = dict(os.environ)
+        env0.update(core.run_env({"TFEL_VERIF_LOCK_NAME": "/vf-c36-%d" % os.getpid()}))
+        skipped = []
+        for f in rnd.sample(corpus, min(40, len(corpus))):
+            if len(keys) >= 16:
+                break
+            # keep the inputs that the current mfront accepts on their own (some need companion files)
+            probe = ctx.path("probe")
+            shutil.rmtree(probe, ignore_errors=True)
+            os.makedirs(probe)
+            r0 = sp.run(["timeout", "120", exe0] + SEARCH + ["--interface=generic", f], cwd=probe, env=env0, stdout=-1, stderr=-2)
+            shutil.rmtree(probe, ignore_errors=True)
+            if r0.returncode != 0:
+                skipped.append(os.path.basename(f))
+                continue
             shutil.copy(f, inputs)
             keys.append((os.path.basename(f), "generic"))
+        if len(keys) < 10:
+            raise Broken("too few repository behaviours accepted by mfront on their own: skipped %s" % skipped)
+        ctx.note("repository inputs skipped because mfront rejects them without their companion files: %s" % ", ".join(skipped))
     depth = 3 if len(keys) <= 4 else 2
     hists = ctx.gen("mfront/MFrontRunGen", env={"NKEYS": str(len(keys)), "DEPTH": str(depth)})
     rnd = random.Random(ctx.seed + 1)
@@ -60,7 +83,7 @@ def run(ctx):
         os.makedirs(d)
         full = dict(os.environ)
         full.update(envs[0])
-        r = subprocess.run(["timeout", "120", exe, "--interface=" + iface, os.path.join("..", "inputs", inp)], cwd=d, env=full, stdout=-1, stderr=-2)
+        r = subprocess.run(["timeout", "120", exe] + SEARCH + ["--interface=" + iface, os.path.join("..", "inputs", inp)], cwd=d, env=full, stdout=-1, stderr=-2)
         if r.returncode != 0:
             raise Broken("solo run of %s/%s failed" % (inp, iface))
         t = digest_tree(d)
@@ -78,7 +101,7 @@ def run(ctx):
             full.update(env)
             if env is envs[2]:
                 full = dict(env, PATH=os.environ.get("PATH", ""))   # a nearly empty, reordered environment
-            r = subprocess.run(["timeout", "120", exe, "--interface=" + iface, os.path.join("..", "inputs", inp)],
+            r = subprocess.run(["timeout", "120", exe] + SEARCH + ["--interface=" + iface, os.path.join("..", "inputs", inp)],
                                cwd=d, env=full, stdout=-1, stderr=-2)
             if r.returncode != 0:
                 failures += 1
